@@ -43,8 +43,8 @@ Lemma Seg_nil_inv T L B L1 : Seg vals T L B L1 ->
   B = [] /\ L1 = L.
 Proof. intros H N0. destruct H as [L|L a t L1 Hd _]; [auto | exfalso; exact (N0 _ Hd)]. Qed.
 
-Lemma restart_step i T Dr B : Sim i T Dr B -> few_forkers vals T ->
-  exists i', step cap [] sample i OpR = (ObsR None [] (l_ldf (i_st i')) ep, i', false) /\ Sim i' T Dr B /\ l_ctr (i_st i') = 0.
+Lemma restart_step pol sf (Hsf : forall f a ch dl, policy_fn pol ep f a ch dl = sf f) i T Dr B : Sim i T Dr B -> few_forkers vals T ->
+  exists i', step cap pol sample i OpR = (ObsR None [] (l_ldf (i_st i')) ep, i', false) /\ Sim i' T Dr B /\ l_ctr (i_st i') = 0.
 Proof.
   intros [W Dn FR CT PR SG CH] Hff.
   pose proof (Done_undecided ep lam vals Hvals T Dr _ _ Hff W _ Dn) as Und.
@@ -65,11 +65,14 @@ Proof.
   assert (NT0 : forall m, In m T -> ~ stale J 0 (nd_id m)).
   { intros m Hm [(ep0 & lm & c & t & Bc & _)|Jm]; [lia|].
     destruct (node_event vals T Dr m W Hm) as [e0 [He0 [E0' _]]]. apply (proj2 (FR e0 He0)). rewrite E0'. exact Jm. }
-  destruct (boot_sim cap ep lam vals Hvals T Dr es (stale J 0) Hff NT0 W (roots_fuel st0) st0 _ [] E0) as [bl [st' [EB [D' [SG' [BO [RR CC]]]]]]].
+  destruct (boot_sim cap ep lam vals Hvals T Dr es (stale J 0) Hff NT0 W (policy_fn pol) sf Hsf (roots_fuel st0) st0 _ [] E0)
+    as [r [bl [st' [L [EB [SG' [BO [EN RF]]]]]]]].
   { unfold roots_fuel. pose proof (cnt_from_le (l_roots st0) (l_ldf st0 + 1)). lia. }
   { exact Hnv. }
   cbn [app] in EB. rewrite EB.
-  destruct (Seg_nil_inv T _ _ _ SG' Und) as [Ebl Eldf]. apply map_eq_nil in Ebl. subst bl.
+  destruct (Seg_nil_inv T _ _ _ SG' Und) as [Ebl EL]. apply map_eq_nil in Ebl. subst bl.
+  destruct EN as [(D' & Eldf & _ & RR & CC)|(nv' & Lt & _)]; [|rewrite EL in Lt; lia].
+  rewrite EL in Eldf. symmetry in Eldf.
   assert (Ep' : l_epoch st' = ep).
   { destruct D' as [S' [[C' _ _ _] _]]. apply (co_epoch _ _ _ _ _ _ _ _ C'). }
   rewrite Ep'. cbn [sealed_in existsb].
@@ -109,7 +112,7 @@ Proof.
                filter no_restart pre = [] /\
                forall rest, run cap [] sample i ((if r then [OpR] else []) ++ rest) = pre ++ run cap [] sample i0 rest).
     { destruct r.
-      - destruct (restart_step i T Dr B HS HffT) as [i0 [ER [HS0 Ct0]]].
+      - destruct (restart_step [] (fun _ => None) (fun _ _ _ _ => eq_refl) i T Dr B HS HffT) as [i0 [ER [HS0 Ct0]]].
         exists i0, [ObsR None [] (l_ldf (i_st i0)) ep]. split; [exact HS0|]. split; [lia|].
         split; [constructor; [cbn; auto | constructor]|]. split; [reflexivity|].
         intros rest. cbn [app run]. rewrite ER. reflexivity.
